@@ -284,7 +284,18 @@ class Ref:
     @staticmethod
     def strictly_smaller(a, b):
         """a <= b and b has a non-leaf node where a has a leaf."""
-        return Ref.is_prefix(a, b) and a.num_nodes < b.num_nodes
+        if not Ref.is_prefix(a, b):
+            return False
+
+        def some_leaf_on_node(x, y):
+            if x is STAR:
+                return y is not STAR
+            if x.kind in DICT_KINDS:
+                ymap = _keymap(y)
+                return any(some_leaf_on_node(cx, ymap[k]) for k, cx in zip(x.keys(), x.children))
+            return any(some_leaf_on_node(cx, cy) for cx, cy in zip(x.children, y.children))
+
+        return some_leaf_on_node(a, b)
 
     @staticmethod
     def common_suffix(a, b):
